@@ -244,6 +244,15 @@ def stepEnf (st : DrvState) (f : List String) : Option (DrvState × String) :=
      | none => some (st, "err:model")
      | some (e, r) => some ({ st with enf := { e with hasWatcher := watcher == "w" }, tbl := st.spec.tbl,
                                       cache := if st.wantCached then some [] else none, keptRm := none }, resS r))
+  | ["e.newfilt", kind, content, text, fp, fg] =>
+    -- the adapter has served an adapter-level filtered load into the model handed to the constructor
+    let a := mkAdapter kind content text
+    (match a.loadFiltered st.spec.store.clear (decList fp) (decList fg) with
+     | (_, _, none) => some (st, "err")
+     | (a', s', some ()) =>
+       match Enforcer.newPrefilled st.spec.defs s' a' with
+       | none => some (st, "err:model")
+       | some (e, r) => some ({ st with enf := e, tbl := st.spec.tbl, cache := if st.wantCached then some [] else none, keptRm := none }, resS r))
   | ["e.newpre", kind, content, text, _, _] =>
     -- a model filled beforehand is loaded afresh by the constructor: same as `e.new`
     (match Enforcer.new st.spec.defs st.spec.store (mkAdapter kind content text) with
